@@ -467,22 +467,52 @@ func (ev *SpecEnv) field(base TV, name string) TV {
 		if !ok {
 			unsupp("spec: field %s of pointer to non-struct", name)
 		}
-		idx := fieldIndex(st, name)
-		if idx < 0 {
+		path := fieldPath(st, name)
+		if path == nil {
 			unsupp("spec: no field %s in %s", name, pt.Elem())
 		}
-		p := x.ptrPlace(base.v, t).extend(idx)
-		return TV{x.load(ev.state(), p), st.Field(idx).Type()}
+		p := x.ptrPlace(base.v, t)
+		ft := types.Type(st)
+		for _, idx := range path {
+			p = p.extend(idx)
+			ft = ft.Underlying().(*types.Struct).Field(idx).Type()
+		}
+		return TV{x.load(ev.state(), p), ft}
 	}
 	if st, ok := t.Underlying().(*types.Struct); ok {
-		idx := fieldIndex(st, name)
-		if idx < 0 {
+		path := fieldPath(st, name)
+		if path == nil {
 			unsupp("spec: no field %s in %s", name, t)
 		}
-		return TV{base.v.(*StructV).fields[idx], st.Field(idx).Type()}
+		v := base.v
+		ft := types.Type(st)
+		for _, idx := range path {
+			v = v.(*StructV).fields[idx]
+			ft = ft.Underlying().(*types.Struct).Field(idx).Type()
+		}
+		return TV{v, ft}
 	}
 	unsupp("spec: field %s of %s", name, t)
 	return TV{}
+}
+
+// fieldPath finds a (possibly promoted, through embedded structs) field.
+func fieldPath(st *types.Struct, name string) []int {
+	if i := fieldIndex(st, name); i >= 0 {
+		return []int{i}
+	}
+	for i := 0; i < st.NumFields(); i++ {
+		f := st.Field(i)
+		if !f.Embedded() {
+			continue
+		}
+		if es, ok := f.Type().Underlying().(*types.Struct); ok {
+			if sub := fieldPath(es, name); sub != nil {
+				return append([]int{i}, sub...)
+			}
+		}
+	}
+	return nil
 }
 
 func fieldIndex(st *types.Struct, name string) int {
@@ -579,11 +609,15 @@ func (ev *SpecEnv) evalPlace(e SExpr) *Place {
 			if !ok {
 				return nil
 			}
-			idx := fieldIndex(st, n.Name)
-			if idx < 0 {
+			path := fieldPath(st, n.Name)
+			if path == nil {
 				unsupp("spec: no field %s in %s", n.Name, pt.Elem())
 			}
-			return x.ptrPlace(base.v, base.t).extend(idx)
+			pl := x.ptrPlace(base.v, base.t)
+			for _, idx := range path {
+				pl = pl.extend(idx)
+			}
+			return pl
 		}
 		// field of a struct location
 		if p := ev.evalPlace(n.X); p != nil {
@@ -796,6 +830,20 @@ func (ev *SpecEnv) call(n *SCall) TV {
 		et := a.t.Underlying().(*types.Slice).Elem()
 		pl := &Place{kind: pkElem, arr: sl.arr, idx: ev.evalInt(n.Args[1]), elem: et}
 		return TV{x.load(ev.state(), pl), et}
+	case "outer":
+		// outer(p): pointer to the struct that directly contains the field p points to (p must be an interior pointer)
+		a := ev.eval(n.Args[0])
+		pl, ok := a.v.(*Place)
+		if !ok || len(pl.path) == 0 || pl.kind != pkHeap {
+			unsupp("spec: outer(p) needs an interior pointer into a heap object at this call site")
+		}
+		q := *pl
+		q.path = append([]int{}, pl.path[:len(pl.path)-1]...)
+		_, t, _ := x.placeKey(&q)
+		if len(q.path) == 0 {
+			return TV{q.ref, types.NewPointer(q.obj)}
+		}
+		return TV{&q, types.NewPointer(t)}
 	case "box":
 		// the interface value holding this (single-scalar) value, as Go's implicit conversion builds it
 		a := ev.eval(n.Args[0])
@@ -943,6 +991,13 @@ func (ev *SpecEnv) call(n *SCall) TV {
 				a := nv[p.Name]
 				switch v := a.v.(type) {
 				case *Term:
+					if mt, isMap := a.t.Underlying().(*types.Map); isMap {
+						// maps: by their key set
+						dom, _, _, ks, _ := x.mapHeaps(ev.state(), mt)
+						rs := x.refSort()
+						args = append(args, tc.Select(ev.state().getHeap(dom, SArr(rs, SArr(ks, SBool))), v))
+						break
+					}
 					args = append(args, v)
 				case *SliceV:
 					et := a.t.Underlying().(*types.Slice).Elem()
